@@ -192,10 +192,11 @@ def base_ro(P, A, ids):
     root = B.ro_tree(stories, lead=3, gap=P.get('gap', 0), trail=P.get('trail', 1), edstart=None,
                      msg_id=A.get('mid', '1'))
     rc = root.find('roCreate')
+    # the blocks already there carry attributes the replacement does not
     ma = E('mosExternalMetadata', T('mosScope', 'PLAYLIST'), T('mosSchema', A.get('ma', 'sch.a')),
-           E('mosPayload', T('Owner', c0)))
+           E('mosPayload', T('Owner', c0)), origin=c0)
     mb = E('mosExternalMetadata', T('mosScope', 'PLAYLIST'), T('mosSchema', A.get('mb', 'sch.b')),
-           E('mosPayload', T('Owner', 'other'), E('deep', T('leaf', c0), k=c0)))
+           E('mosPayload', T('Owner', 'other'), E('deep', T('leaf', c0), k=c0)), origin='ncs')
     pos = P.get('meta_pos', 3)
     if P.get('n_meta', 2) >= 1:
         rc.insert(pos, ma)
